@@ -50,6 +50,7 @@ def check (args res : List String) : Except String (List String × String) := do
   for (c, n) in (if good then L.toList.zip ["explicit", "bdd-bu", "bdd-td", "nfa"] else []) do
     if c == '0' then f := f ++ [s!"violation load→dump→load→dump changes rules or final states in the {n} encoding"]
     if c == 'e' then f := f ++ [s!"violation the {n} encoding cannot reload its own dump"]
+    if c == 'd' then f := f ++ [s!"violation the dump of the {n} encoding does not show the rules / final states that were loaded"]
   let acc := match model with | .ok _ => "1" | .error _ => "0"
   pure (f, s!"accepted={acc} goodnames={if good then 1 else 0} loaders={L}")
 
